@@ -18,11 +18,23 @@ import (
 // vGetLocal: one read of key K (entry 0 if present) from a cache without backend.
 //   fileState: 0 good, 1 missing, 2 corrupt (arbitrary header)
 func vGetLocal(kind cache.EntryKind, mode casblob.CompressionType, wantZstd bool, nOff int) {
+	vGetLocalX(kind, mode, mode, wantZstd, nOff)
+}
+
+// vGetLocalX: the entries were written in storage mode `mode` (that decides
+// their file format and name); the server now runs in `serverMode` (entries
+// written under the other storage mode stay readable: C09, C20).
+func vGetLocalX(kind cache.EntryKind, mode, serverMode casblob.CompressionType, wantZstd bool, nOff int) {
 	n := 1 + vsym.Choose("n", 2) // 1 or 2 entries
 	present := vsym.Choose("present", 2) == 1
 	kinds := []cache.EntryKind{kind, cache.CAS}
 	d := vNewDisk(n, mode, kinds, false)
 	c, st := d.c, d.st
+	c.storageMode = serverMode
+	tg := "C02"
+	if mode != serverMode {
+		tg = "C02-C09-C20"
+	}
 	hash := vHashA
 	if present {
 		hash = vHashes[0]
@@ -138,7 +150,7 @@ func vGetLocal(kind cache.EntryKind, mode casblob.CompressionType, wantZstd bool
 			return
 		}
 		if present {
-			vsym.Assert(vsym.Not(sizeOK), "get/C02-present-blob-with-matching-size-is-a-hit")
+			vsym.Assert(vsym.Not(sizeOK), "get/"+tg+"-present-blob-with-matching-size-is-a-hit")
 		}
 		cnt := st.checkIndex("", 0, 0, "get-miss")
 		vsym.Assert(cnt == n, "get/miss-leaves-index")
@@ -159,36 +171,36 @@ func vGetLocal(kind cache.EntryKind, mode casblob.CompressionType, wantZstd bool
 		return
 	}
 	vsym.Assert(fileState == 0, "get/hit-although-file-is-missing")
-	vsym.Assert(sizeOK, "get/C02-size-mismatch-must-be-a-miss")
-	vsym.Assert(found == it.size, "get/C02-reported-size-is-the-blob-size")
+	vsym.Assert(sizeOK, "get/"+tg+"-size-mismatch-must-be-a-miss")
+	vsym.Assert(found == it.size, "get/"+tg+"-reported-size-is-the-blob-size")
 	// the hit counts as a use
 	fr := c.lru.ll.Front()
 	vsym.Assert(fr != nil && fr.Value.(*entry).key == key, "get/C05-hit-moves-entry-to-front")
 	// content
 	segs, rerr := zstdimpl.Drain(rc, 4)
-	vsym.Assert(rerr == nil, "get/C02-stream-has-no-error")
+	vsym.Assert(rerr == nil, "get/"+tg+"-stream-has-no-error")
 	switch {
 	case kind == cache.CAS && mode == casblob.Zstandard && !wantZstd:
-		zstdimpl.AssertRange(segs, d.codec.Logical(), off, it.size-off, "get/C02-uncompressed")
-		vsym.Assert(len(d.codec.Bad) == 0, "get/C02-codec-fed-whole-frames")
+		zstdimpl.AssertRange(segs, d.codec.Logical(), off, it.size-off, "get/"+tg+"-uncompressed")
+		vsym.Assert(len(d.codec.Bad) == 0, "get/"+tg+"-codec-fed-whole-frames")
 	case kind == cache.CAS && mode == casblob.Zstandard && wantZstd:
-		zstdimpl.AssertZstdStream(blob, d.codec, segs, off, "get/C02")
+		zstdimpl.AssertZstdStream(blob, d.codec, segs, off, "get/"+tg)
 	case wantZstd:
 		// raw file re-encoded on the fly: every frame encodes the next run of file bytes
 		pos := off
 		for i, s := range segs {
 			okE := i < len(d.codec.Encs) && s.Src == zstdimplEnc(i)
-			vsym.Assert(okE, "get/C02-legacy-zstd-stream-is-made-of-frames")
+			vsym.Assert(okE, "get/"+tg+"-legacy-zstd-stream-is-made-of-frames")
 			if okE {
 				e := d.codec.Encs[i]
-				vsym.Assert(e.Known && e.Src == d.files[0].ID && e.SrcOff == pos, "get/C02-legacy-zstd-frames-encode-consecutive-file-bytes")
-				vsym.Assert(s.Off == 0 && s.N == e.Len, "get/C02-legacy-zstd-frame-whole")
+				vsym.Assert(e.Known && e.Src == d.files[0].ID && e.SrcOff == pos, "get/"+tg+"-legacy-zstd-frames-encode-consecutive-file-bytes")
+				vsym.Assert(s.Off == 0 && s.N == e.Len, "get/"+tg+"-legacy-zstd-frame-whole")
 				pos += e.SrcLen
 			}
 		}
-		vsym.Assert(pos == it.size, "get/C02-legacy-zstd-stream-covers-rest-of-blob")
+		vsym.Assert(pos == it.size, "get/"+tg+"-legacy-zstd-stream-covers-rest-of-blob")
 	default:
-		zstdimpl.AssertRange(segs, d.files[0].ID, off, it.size-off, "get/C02-raw")
+		zstdimpl.AssertRange(segs, d.files[0].ID, off, it.size-off, "get/"+tg+"-raw")
 	}
 	cerr := rc.Close()
 	_ = cerr
@@ -208,6 +220,12 @@ func VerifGetCasZstdAsZstd()  { vGetLocal(cache.CAS, casblob.Zstandard, true, 3)
 func VerifGetCasRaw()         { vGetLocal(cache.CAS, casblob.Identity, false, 0) }
 func VerifGetCasRawAsZstd()   { vGetLocal(cache.CAS, casblob.Identity, true, 0) }
 func VerifGetAC()             { vGetLocal(cache.AC, casblob.Zstandard, false, 0) }
+
+// entries written under the other storage mode
+func VerifGetCasRawInZstdMode()       { vGetLocalX(cache.CAS, casblob.Identity, casblob.Zstandard, false, 0) }
+func VerifGetCasRawInZstdModeAsZstd() { vGetLocalX(cache.CAS, casblob.Identity, casblob.Zstandard, true, 0) }
+func VerifGetCasZstdInRawMode()       { vGetLocalX(cache.CAS, casblob.Zstandard, casblob.Identity, false, 3) }
+func VerifGetCasZstdInRawModeAsZstd() { vGetLocalX(cache.CAS, casblob.Zstandard, casblob.Identity, true, 3) }
 
 // ---- trivial gets
 
